@@ -20,7 +20,7 @@ var known = ev.Matcher[Case]{
 	},
 }
 
-const rule = "real CLI on SQLite files. migrate apply: directories of 1-3 files x 1-3 statements (journal INSERTs; the first statement creates the journal table) x a failing statement at every (file, statement) position or none " +
+const rule = "real CLI on SQLite files. migrate apply: directories of 1-3 files x 1-3 statements (journal INSERTs; the first statement creates the journal table) x a failing statement at every (file, statement) position or none, failing either at once (missing table) or on a foreign-key violation with enforcement on (_fk=1: immediate without a transaction, found at commit inside one) " +
 	"x tx-mode {file, all, none} x per-file atlas:txmode directives x optional count argument; every configuration also with --dry-run. " +
 	"schema apply: populated tables and desired schemas whose plan succeeds on an early statement and fails on the data later (unique index over duplicates, NOT NULL over NULLs), with --auto-approve and with --dry-run. " +
 	"Oracle (independent connection; journal rows in order, revision rows version/applied/total/error, schema objects; timestamps and hashes masked): file mode = state after the last completely applied file; all mode = state before the command; " +
@@ -53,6 +53,10 @@ func enumerate(thorough bool, f func(Case) bool) {
 						if !f(Case{Shape: sh, FailF: p[0], FailJ: p[1], Mode: mode, Count: cnt, DryRun: dry}) {
 							return
 						}
+						// the same position failing on a foreign-key violation (enforcement on)
+						if !dry && p[0] >= 0 && (p[0] > 0 || p[1] > 0) && !f(Case{Shape: sh, FailF: p[0], FailJ: p[1], Mode: mode, Count: cnt, FailKind: 1}) {
+							return
+						}
 					}
 				}
 			}
@@ -77,6 +81,9 @@ func enumerate(thorough bool, f func(Case) bool) {
 		}
 		for _, p := range pos {
 			if !f(Case{Shape: d.sh, FailF: p[0], FailJ: p[1], Mode: d.mode, Directives: d.dirs}) {
+				return
+			}
+			if p[0] >= 0 && (p[0] > 0 || p[1] > 0) && !f(Case{Shape: d.sh, FailF: p[0], FailJ: p[1], Mode: d.mode, Directives: d.dirs, FailKind: 1}) {
 				return
 			}
 		}
@@ -104,6 +111,9 @@ func genCase(t *rapid.T) Case {
 	if rapid.IntRange(0, 4).Draw(t, "fails") != 0 {
 		c.FailF = rapid.IntRange(0, n-1).Draw(t, "ff")
 		c.FailJ = rapid.IntRange(0, c.Shape[c.FailF]-1).Draw(t, "fj")
+		if c.FailF > 0 || c.FailJ > 0 {
+			c.FailKind = rapid.IntRange(0, 1).Draw(t, "failkind")
+		}
 	}
 	c.Count = rapid.SampledFrom([]int{0, 0, 1, 2}).Draw(t, "count")
 	c.DryRun = rapid.IntRange(0, 4).Draw(t, "dry") == 0
@@ -118,13 +128,16 @@ func TestCheck(t *testing.T) {
 		cls := out.Class
 		if cls == "" {
 			cls = fmt.Sprintf("migrate-apply/mode=%s/failing=%v", c.Mode, c.FailF >= 0)
+			if c.FailKind == 1 {
+				cls += "/foreign-key-violation"
+			}
 			if len(c.Directives) > 0 {
 				cls += "/directives"
 			}
 		}
 		col.Class(cls)
 		if out.Fired || c.DryRun || c.Schema {
-			col.NonTrivial(fmt.Sprintf("%v|%d.%d|%s|%v|%d|%v|%v.%d", c.Shape, c.FailF, c.FailJ, c.Mode, c.Directives, c.Count, c.DryRun, c.Schema, c.Variant))
+			col.NonTrivial(fmt.Sprintf("%v|%d.%d|%s|%v|%d|%v|%v.%d|%d", c.Shape, c.FailF, c.FailJ, c.Mode, c.Directives, c.Count, c.DryRun, c.Schema, c.Variant, c.FailKind))
 		}
 		col.Sample(cls, c)
 		return err
